@@ -1052,3 +1052,126 @@ Proof.
       rewrite Ef in H. exact H. }
     unfold ns_nmid in *. rewrite F0, B0. unfold ns_cmn, ns_cm in *. lia.
 Qed.
+
+Lemma ns_fold_rm_nil (l : list ns_msg) :
+  fold_left (fun l0 mid => ns_rm_mid mid l0) [] l = l.
+Proof. reflexivity. Qed.
+
+Lemma ns_gaveup_rst mid b : ns_gaveup [NsNack ns_RST mid b] = [].
+Proof. reflexivity. Qed.
+Lemma ns_gaveup_tm mid b : ns_gaveup [NsNack ns_TOO_MANY mid b] = [mid].
+Proof. reflexivity. Qed.
+Lemma ns_res_nack r mid b : ns_res [NsNack r mid b] = [].
+Proof. reflexivity. Qed.
+Lemma ns_txs_nack r mid b : ns_txs [NsNack r mid b] = [].
+Proof. reflexivity. Qed.
+
+Lemma ns_filter_tok_map tok l :
+  filter (fun y => negb (ns_tok y =? tok)) (map ns_nmsg l) =
+  map ns_nmsg (filter (fun n => negb (ns_tok (ns_nmsg n) =? tok)) l).
+Proof.
+  induction l as [|h t IH]; [reflexivity|]. cbn [map filter].
+  destruct (negb (ns_tok (ns_nmsg h) =? tok)); cbn [map]; rewrite IH; reflexivity.
+Qed.
+
+Theorem ns_mon_step_ok c s e r : ns_wf c -> ns_inv c s -> ns_budget s (e :: r) ->
+  ns_mon_step c (ns_abs s) e (snd (ns_step c s e)) = Some (ns_abs (fst (ns_step c s e))).
+Proof.
+  intros Hwf Hi Hb. pose proof (ns_step_inv c s e Hwf Hi) as Hi'.
+  destruct (ns_open s) eqn:Ho.
+  2: { unfold ns_mon_step, ns_step. cbn [ns_abs ns_mopen]. rewrite Ho. cbn [negb].
+       destruct e; reflexivity. }
+  pose proof (ns_step_char c s e Hwf Hi Ho) as H. cbn zeta in H.
+  destruct e as [m|mid|mid|mid|tok| |rr].
+  - apply ns_mon_step_submit; assumption.
+  - (* ack *)
+    destruct (ns_remove mid (ns_sq s)) as [[n q]|] eqn:Er.
+    + destruct H as (txs & Eo & Hr & He).
+      destruct (ns_remove_some _ _ _ _ Er) as (_ & _ & _ & _ & A5 & _).
+      ns_mon_open Ho. rewrite Eo, ns_gaveup_maptx, ns_res_maptx. cbn [fold_left forallb negb].
+      rewrite <- A5, <- He, <- Eo.
+      apply (ns_mon_finish_ok c s _ q txs); try assumption.
+      * eapply ns_rel_open; eassumption.
+      * rewrite Eo. apply ns_txs_maptx.
+    + destruct H as [Es Eo]. destruct (ns_remove_none _ _ Er) as [A1 _].
+      ns_mon_open Ho. rewrite Eo, Es. cbn [ns_gaveup ns_res flat_map fold_left forallb negb].
+      rewrite A1. apply (ns_mon_finish_ok c s s (ns_sq s) []); try assumption; try reflexivity.
+      unfold ns_rel. cbn [app filter]. rewrite app_nil_r. repeat split.
+  - (* rst *)
+    destruct (ns_remove mid (ns_sq s)) as [[n q]|] eqn:Er.
+    + destruct H as (txs & Eo & Hr & He).
+      destruct (ns_remove_some _ _ _ _ Er) as (_ & _ & _ & _ & A5 & _).
+      ns_mon_open Ho. rewrite Eo, ns_gaveup_app, ns_res_app, ns_gaveup_maptx, ns_res_maptx,
+        ns_gaveup_rst, ns_res_nack.
+      cbn [app fold_left forallb negb].
+      rewrite <- A5, <- He, <- Eo.
+      apply (ns_mon_finish_ok c s _ q txs); try assumption.
+      * eapply ns_rel_open; eassumption.
+      * rewrite Eo, ns_txs_app, ns_txs_maptx, ns_txs_nack. apply app_nil_r.
+    + destruct H as [Es Eo]. destruct (ns_remove_none _ _ Er) as [A1 _].
+      ns_mon_open Ho. rewrite Eo, Es, ns_gaveup_rst, ns_res_nack.
+      cbn [fold_left forallb negb].
+      rewrite A1. apply (ns_mon_finish_ok c s s (ns_sq s) []); try assumption; try reflexivity.
+      unfold ns_rel. cbn [app filter]. rewrite app_nil_r. repeat split.
+  - (* tick *)
+    destruct (ns_remove mid (ns_sq s)) as [[n q]|] eqn:Er.
+    + destruct (ns_remove_some _ _ _ _ Er) as (_ & Hm & Hin & _ & A5 & _).
+      assert (Hex : existsb (fun y => ns_mid y =? mid) (map ns_nmsg (ns_sq s)) = true).
+      { rewrite ns_existsb_mid_map. eapply ns_existsb_mid_in; eassumption. }
+      destruct H as [(Eo & Hr & He)|(txs & Eo & Hr & He)].
+      * ns_mon_open Ho. rewrite Eo. cbn [ns_gaveup ns_res flat_map fold_left forallb app existsb].
+        unfold ns_nmid in Hm. rewrite Hm, Hex, Z.eqb_refl. cbn [negb orb andb].
+        rewrite <- He, <- Eo.
+        apply (ns_mon_finish_ok c s _ (ns_sq s) []); try assumption.
+        -- eapply ns_rel_open; eassumption.
+        -- rewrite Eo. reflexivity.
+      * ns_mon_open Ho. rewrite Eo, ns_gaveup_app, ns_res_app, ns_gaveup_maptx, ns_res_maptx.
+        rewrite ns_gaveup_tm, ns_res_nack.
+        cbn [app fold_left forallb negb existsb].
+        rewrite Hex, Z.eqb_refl. cbn [orb negb andb].
+        rewrite <- A5, <- He, <- Eo.
+        apply (ns_mon_finish_ok c s _ q txs); try assumption.
+        -- eapply ns_rel_open; eassumption.
+        -- rewrite Eo, ns_txs_app, ns_txs_maptx, ns_txs_nack. apply app_nil_r.
+    + destruct H as [Es Eo]. destruct (ns_remove_none _ _ Er) as [A1 A2].
+      ns_mon_open Ho. rewrite Eo, Es. cbn [ns_gaveup ns_res flat_map fold_left forallb negb].
+      rewrite ns_existsb_mid_map, (ns_existsb_mid_none _ _ A2). cbn [andb].
+      apply (ns_mon_finish_ok c s s (ns_sq s) []); try assumption; try reflexivity.
+      unfold ns_rel. cbn [app filter]. rewrite app_nil_r. repeat split.
+  - (* separate response *)
+    destruct H as (txs & Eo & Hr & He).
+    ns_mon_open Ho. rewrite Eo, ns_gaveup_maptx, ns_res_maptx. cbn [fold_left forallb negb].
+    rewrite <- He, <- Eo.
+    pose proof (ns_filter_tok_map tok (ns_sq s)) as Hf.
+    rewrite Hf.
+    apply (ns_mon_finish_ok c s _ _ txs); try assumption.
+    + eapply ns_rel_open; eassumption.
+    + rewrite Eo. apply ns_txs_maptx.
+  - (* up *)
+    destruct H as (txs & Eo & Hr & He).
+    ns_mon_open Ho. rewrite Eo, ns_gaveup_maptx, ns_res_maptx. cbn [fold_left forallb negb].
+    rewrite <- He, <- Eo.
+    apply (ns_mon_finish_ok c s _ (ns_sq s) txs); try assumption.
+    + eapply ns_rel_open; eassumption.
+    + rewrite Eo. apply ns_txs_maptx.
+  - eapply ns_mon_step_fail; eassumption.
+Qed.
+
+Theorem ns_mon_run_ok c : ns_wf c -> forall evs s, ns_inv c s -> ns_budget s evs ->
+  ns_mon_run c (ns_abs s) (ns_trace c s evs) = Some (ns_abs (ns_run c s evs)).
+Proof.
+  intros Hwf. induction evs as [|e r IH]; intros s Hi Hb; [reflexivity|].
+  rewrite ns_trace_cons. cbn [ns_mon_run ns_run].
+  rewrite (ns_mon_step_ok c s e r Hwf Hi Hb).
+  apply IH; [apply ns_step_inv; assumption|apply ns_step_budget; assumption].
+Qed.
+
+(* the history checker accepts every history of the repaired session machine *)
+Theorem ns_accepts_all c est0 evs : ns_wf c -> NoDup (ns_sub_mids evs) ->
+  ns_accepts c est0 (ns_trace c (ns_init est0) evs) = true.
+Proof.
+  intros Hwf Hnd. unfold ns_accepts.
+  change (ns_mkmon true est0 [] []) with (ns_abs (ns_init est0)).
+  rewrite (ns_mon_run_ok c Hwf evs _ (ns_init_inv c est0 Hwf) (ns_init_budget est0 evs Hnd)).
+  reflexivity.
+Qed.
